@@ -25,6 +25,7 @@ func cn(t string) string {
 	}
 	return t
 }
+
 var values = []string{"int", "string", "array", "U", "V", "float", "bool", "null", "numstr", "SubU", "zero", "emptystr"}
 
 // (float, bool, null, a numeric string, an object of a subclass, 0 and "": the values at the edges of "is of type A")
@@ -62,6 +63,39 @@ func gen(r *verifsim.Rng, tier string) (any, hx.Sched) {
 	}
 	var insts []Op
 	nops := ni + 2 + r.Intn(10)
+	if r.Intn(20) == 0 {
+		// many DISTINCT instantiations of one class (tables of instantiations that fill up, wrap around
+		// or get evicted), then fresh `new` sites for the earliest argument lists and writes to all of them
+		basic := []string{"int", "string", "array", "U"}
+		var lists [][]string
+		for _, a := range basic {
+			for _, b := range basic {
+				for _, c := range basic {
+					lists = append(lists, []string{a, a, b, c})
+				}
+			}
+		}
+		for i := len(lists) - 1; i > 0; i-- {
+			j := r.Intn(i + 1)
+			lists[i], lists[j] = lists[j], lists[i]
+		}
+		n := verifsim.Pick(r, []int{20, 34, 40, 64})
+		for i := 0; i < n; i++ {
+			w.Ops = append(w.Ops, Op{K: "I", Inst: i, Class: "G4", Args: lists[i]})
+		}
+		for i := 0; i < 4; i++ { // the earliest lists again, at new source locations
+			w.Ops = append(w.Ops, Op{K: "I", Inst: n + i, Class: "G4", Args: lists[i]})
+		}
+		for i := 0; i < 10; i++ {
+			inst := verifsim.Pick(r, []int{r.Intn(4), n + r.Intn(4), r.Intn(n)})
+			w.Ops = append(w.Ops, Op{K: "W", Inst: inst, Val: verifsim.Pick(r, []string{"int", "string", "array", "U", "V"}), Mem: verifsim.Pick(r, []string{"a", "b", "c", "d"})})
+		}
+		s := hx.SwarmSched(r, focus)
+		s.MeanGap = verifsim.Pick(r, []int64{300, 1000, 10000})
+		s.MaxSteps = 4000000
+		s.MapMode = verifsim.MapSorted
+		return w, s
+	}
 	// family runs: every instantiation is of ONE generic class with arguments from
 	// a two-type subset, so that instantiations equal or differ in single positions
 	family := ""
